@@ -1631,6 +1631,9 @@ class Machine:
             return lanes.simd_transmute(self, st, v, s, d)
         if s["k"] == d["k"] == "adt" and s["path"] == d["path"]:
             return v
+        if "fmt::" in d["s"] or "fmt::" in s["s"]:
+            # construction of a panic message (fmt::Arguments): opaque; any use of it alarms
+            return ("top", "transmute:%s" % d["s"])
         raise Unanalysable("transmute %s -> %s" % (s["s"], d["s"]))
 
     # ---- binary operators ------------------------------------------------------------------
